@@ -144,7 +144,7 @@ def stage_expect_violation(ctx, E, name, module, cfg, what, workers=16, timeout=
     It is informational (a lead, never a verdict): verdicts come from the replayed real code."""
     res = E.run_tlc(ctx.work, name, module, cfg, workers=workers, timeout=timeout)
     ctx.add_tlc(res)
-    found = res["rc"] == 12 and "is violated" in res["out"]
+    found = res["rc"] in (12, 13) and ("is violated" in res["out"] or "was violated" in res["out"])
     ctx.stage_info.append({"stage": "MC-as-built " + name, "expected_violation": what, "tlc_found_it": found,
                            "states": res["distinct"]})
     E.log("%s: as-built model %s %s (design-level lead)" % (name, "VIOLATES" if found else "satisfies", what))
@@ -165,6 +165,49 @@ def run_C07(ctx, E):
     stage_record_trace(ctx, E, "opt", "C07_Trace", "C07_Trace.cfg", heap="8g")
 
 
+def run_C09(ctx, E):
+    os.environ["C09_TMP"] = ctx.work
+    os.environ["C09_REPS"] = str(T(ctx, 2, 7))
+    os.environ["VERIF_SEED"] = str(ctx.seed)
+    evfile = os.path.join(ctx.work, "c09_events.ndjson")
+    os.environ["C09_EVENTS_OUT"] = evfile
+    # design level: every interleaving of goroutines / channel / WaitGroup / collector
+    stage_mc_only(ctx, E, "conc", "LigationConc", "LigationConc_%s.cfg" % ctx.tier, timeout=1500)
+    if ctx.tier == "thorough":
+        stage_expect_violation(ctx, E, "conc_asbuilt", "LigationConc", "LigationConc_asbuilt.cfg",
+                               "Termination (code before fix KF-C09-1: no per-chain junction memory)")
+        # the race detector on the real runs
+        ctx.drv_race = E.build_driver(ctx.work, race=True)
+        os.environ["POLYDRV_CHILD"] = ctx.drv_race
+        os.environ["POLYDRV_NO_RLIMIT"] = "1"
+        os.environ["C09_DEADLINE_MS"] = "20000"
+    # functional: every abstract pool -> DNA parts -> clone.GoldenGate at GOMAXPROCS 1, 2, 16 with seeded yields
+    stage_mc_replay(ctx, E, "pools", "C09_MC", "C09_MC_%s.cfg" % ctx.tier, timeout=3000)
+    if ctx.tier == "thorough":
+        os.environ.pop("POLYDRV_CHILD", None)
+        os.environ.pop("POLYDRV_NO_RLIMIT", None)
+        os.environ["C09_REPS"] = "2"
+        os.environ["C09_DEADLINE_MS"] = "4000"
+        stage_mc_replay(ctx, E, "pools4", "C09_MC", "C09_MC_thorough4.cfg", timeout=3000)
+    # I->S: the synchronisation events of those runs, validated by C09_Trace
+    trace = os.path.join(ctx.work, "trace_sync.ndjson")
+    n = 0
+    runs = 0
+    with open(evfile) as f, open(trace, "w") as w:
+        for line in f:
+            r = json.loads(line)
+            runs += 1
+            w.write(json.dumps({"ev": "begin", "a": "", "b": ""}) + "\n")
+            for e in r["events"]:
+                w.write(json.dumps({"ev": e["ev"], "a": e["a"], "b": e["b"]}) + "\n")
+            w.write(json.dumps({"ev": "return", "a": "", "b": "", "result": r.get("result") or []}) + "\n")
+            n += len(r["events"]) + 2
+    if n == 0:
+        raise E.Machinery("no synchronisation events were recorded: are the verif hooks in /repo/clone still called?")
+    validate_trace(ctx, E, "sync", "C09_Trace", "C09_Trace.cfg", trace, n, heap="8g")
+    ctx.stage_info.append({"stage": "I->S sync", "runs_with_events": runs})
+
+
 def run_C10(ctx, E):
     ctx.exhaustive = True
     for e in (("e1", "e2", "e4") if ctx.tier == "quick" else ("e1", "e2", "e3", "e4")):
@@ -182,6 +225,26 @@ _seqhash_note = ("trusted: TLC, community modules; the digest is uninterpreted i
                  "in the replayer by a from-scratch BLAKE3 transcription pinned by the official test vectors; "
                  "double-stranded inputs containing Z or (under type DNA) U are outside the strand clause and not replayed")
 PROPS = {
+    "C09": dict(run=run_C09,
+                technique="TLC model checking of the goroutine/channel/WaitGroup model of the ligation simulator "
+                          "(all interleavings, safety + termination) and exhaustive enumeration of abstract fragment "
+                          "pools with their rings; every pool concretised to DNA parts and run through clone.GoldenGate "
+                          "at GOMAXPROCS 1/2/16 with seeded yields; hook-recorded synchronisation events validated by "
+                          "C09_Trace",
+                level_text="LigationConc.tla: every interleaving for all pools of <= 2 fragments over 2 overhang symbols "
+                           "(quick) / five structured 2-3 fragment pools over 3 symbols (thorough): result = rings in "
+                           "every schedule, no send on a closed channel, WaitGroup never negative and equal to the "
+                           "number of live goroutines, close only after all are done, termination under fairness. "
+                           "C09_MC.tla: every pool of <= 3 fragments over 2 (quick) / 3 (thorough, plus <= 4 over 2) "
+                           "overhang symbols with all rings; each is turned into BsaI/BbsI/BtgZI parts (linear or "
+                           "circular carriers at random rotation, lower case, permuted) and the set of returned "
+                           "constructs must equal the rings as circular double-stranded molecules, without duplicates, "
+                           "at three GOMAXPROCS values x 2 (quick) / 7 (thorough, race detector on) repetitions",
+                level_note="trusted: TLC, community modules, the concretiser, the child-process driver (deadline + "
+                           "memory watchdog); schedules of the real code are sampled (GOMAXPROCS, yields at hooks), "
+                           "exhaustive interleaving coverage exists at model level only",
+                rule="S->I: one case per abstract pool (6 or 21 real runs each); non-trivial = pool has at least one "
+                     "ring; I->S: synchronisation events of up to 400 runs"),
     "C10": dict(run=run_C10,
                 technique="TLC exhaustive evaluation of a cyclic, origin-free definition of directional Type IIS "
                           "digestion (Digest.tla) with a rotation-invariance theorem; every in-domain string replayed on "
